@@ -19,7 +19,7 @@ import os
 import numpy as np
 
 from .. import common
-from ..fmutil import EPOCH, T, ad, close, err_class, fm, td
+from ..fmutil import limited, EPOCH, T, ad, close, err_class, fm, td
 
 MODULES = ["Output", "TimeAdapters", "Integration", "Spill", "SpillLemmas"]
 GEN_OBLIGATIONS = ["caching_push_based"]
@@ -398,7 +398,7 @@ def run_composition(case, location, limit):
         src.outputs["Out"] >> a >> cons.inputs["In"]
     err = None
     try:
-        comp.run(end_time=EPOCH + case["days"] * day)
+        limited(120, comp.run, end_time=EPOCH + case["days"] * day)
     except Exception as e:  # noqa
         err = {"err": err_class(e), "msg": f"{type(e).__name__}: {str(e)[:120]}"}
     left = sorted(os.listdir(location)) if os.path.isdir(location) else []
@@ -433,7 +433,9 @@ def check_cases(ctx, cases, comp_cases, res):
     models = common.lean_batch([model_request(c) for c in cases])
     root = ctx.scratch()
     for n, (c, m) in enumerate(zip(cases, models)):
-        loc = os.path.join(root, f"c{n}")
+        if n % 3 == 0:
+            c["glob_loc"] = True   # the spill location contains glob characters (part of the case: replays use one too)
+        loc = os.path.join(root, f"c[{n}]" if c.get("glob_loc") else f"c{n}")
         impl = run_impl(c, loc)
         spilled = max(len(x) for x in impl["listings"])
         served = sum(1 for a in impl["answers"] if a and "ok" in a)
@@ -467,7 +469,9 @@ def check_cases(ctx, cases, comp_cases, res):
     # static outputs: oracle only (the one publication is spilled, read any number of times, removed at finalize)
     for n in range(ctx.n(40, 400)):
         c = gen_static_case(ctx.rng)
-        loc = os.path.join(root, f"s{n}")
+        if n % 2 == 0:
+            c["glob_loc"] = True
+        loc = os.path.join(root, f"s[{n}]" if c.get("glob_loc") else f"s{n}")
         impl = run_impl(c, loc)
         res.case(c, max(len(x) for x in impl["listings"]) > 0)
         res.count("kind", "static")
@@ -549,7 +553,7 @@ def search(ctx, res, divergences, broken):
 
 
 def _eval(ctx, case, tag):
-    loc = os.path.join(ctx.scratch(), tag)
+    loc = os.path.join(ctx.scratch(), tag + ("[1]" if case.get("glob_loc") else ""))
     if "composition" in case:
         o, _a = comp_oracle(case["composition"], loc)
         return o
